@@ -17,7 +17,7 @@ SUBS = [
     dict(name="connect", fork=True, quick=dict(cases=1500, shards=3), thorough=dict(cases=25000, shards=3)),
     dict(name="accept", fork=True, quick=dict(cases=1500, shards=1), thorough=dict(cases=25000, shards=1)),
 ]
-WRAPS = ["poll", "recv", "send", "connect", "accept", "getsockopt", "setsockopt", "socket", "close", "bind", "fcntl"]
+WRAPS = ["poll", "recv", "send", "connect", "accept", "getsockopt", "setsockopt", "socket", "close", "bind", "fcntl", "shutdown"]
 
 
 def build(B):
